@@ -4,7 +4,7 @@
    the code after the repair `fix: withdraw_liquidity pays the exact pro-rata share` (before it the share ratio was
    truncated to 18 digits and the literal lower bound was false; recorded as fixed in known_findings.json). *)
 From MD.Model Require Import Base Ownable Epoch PoolMath Types PoolManager FarmManager Chain.
-From MD.Proofs Require Import PoolMathProofs SwapProofs PmProofs LiquidityProofs BankProofs TxBalances PoolCustodyChain LockedLiquidity NonVacuity.
+From MD.Proofs Require Import PoolMathProofs SwapProofs PmProofs LiquidityProofs BankProofs TxBalances PoolCustodyChain LockedLiquidity DepositValue NonVacuity.
 
 (* constant-product deposit: LP minted = min(floor(a*S/x), floor(b*S/y)) is never more than the depositor's
    proportional contribution in either asset ... *)
@@ -19,6 +19,24 @@ Theorem C02_cp_deposit_never_dilutes : forall a b x y S m,
   m * x <= a * S -> m * y <= b * S ->
   x * y * ((S + m) * (S + m)) <= (x + a) * (y + b) * (S * S).
 Proof. exact cp_deposit_value_per_lp. Qed.
+
+(* ... AT HANDLER LEVEL: an unlocked deposit of both assets into a funded constant-product pool (reserves x, y; LP supply S > 0;
+   a, b the amounts attached of each asset, in either order) emits exactly one mint, of m LP for the chosen receiver, with
+   m x <= a S and m y <= b S (m = the smaller of the two floored proportional shares), adds exactly the attached coins to the
+   reserves, and therefore does not lower the value per LP token: x y (S + m)^2 <= (x + a)(y + b) S^2. *)
+Theorem C02_deposit_handler_never_dilutes : forall w sender funds ls ss r pid l s' msgs d0 d1 p dx dy x y S,
+  aggregate_coins funds = Ok [d0; d1] -> denom_of d0 <> denom_of d1 ->
+  (forall c, In c funds -> 0 <= amount_of c) ->
+  provide_liquidity w sender funds ls ss r pid None l = Ok (s', msgs) ->
+  pool_find (w_pm w) pid = Ok p -> p_type p = ConstantProduct ->
+  p_assets p = [(dx, x); (dy, y)] -> dx <> dy -> 0 < x -> 0 < y ->
+  supply (w_bank w) (p_lp p) = S -> 0 < S ->
+  exists m,
+    msgs = [plain (MTfMint (p_lp p, m) (addr_or_default w r sender))] /\ 0 <= m /\
+    m * x <= camt funds dx * S /\ m * y <= camt funds dy * S /\
+    (forall d, res s' d = res (w_pm w) d + camt funds d) /\
+    x * y * ((S + m) * (S + m)) <= (x + camt funds dx) * (y + camt funds dy) * (S * S).
+Proof. exact provide_cp_value. Qed.
 
 Theorem C02_cp_first_deposit : forall a b, 0 <= a -> 0 <= b -> Z.sqrt (a * b) * Z.sqrt (a * b) <= a * b.
 Proof. exact cp_first_deposit_value. Qed.
@@ -123,3 +141,4 @@ Print Assumptions C02_surplus_never_decreases.
 Print Assumptions C02_first_deposit_locks_the_minimum.
 Print Assumptions C02_minimum_liquidity_stays_locked_forever.
 Print Assumptions C02_locked_minimum_example.
+Print Assumptions C02_deposit_handler_never_dilutes.
